@@ -609,7 +609,22 @@ func (h *H) Judge(x *vrt.Exec) ([]vrt.Violation, uint64) {
 func (h *H) judgeJobs(crashed bool) {
 	for _, jr := range h.Jobs {
 		// C01.d identity
-		for i, id := range jr.SeenID {
+		for _, id := range jr.SeenID {
+			if jr.WantID == "~auto" {
+				// submitted without an ID: the worker's generator supplies one per item, distinct from every other item's
+				bare := strings.TrimPrefix(id, "g:")
+				ok := strings.HasPrefix(bare, "auto") && len(bare) > 4
+				for _, o := range h.Jobs {
+					if o != jr && len(o.SeenID) > 0 && o.SeenID[0] == id {
+						ok = false
+					}
+				}
+				if !ok {
+					h.viol("C01", "C01.identity", "a batch item submitted without an ID did not get its own ID from the worker's generator")
+					h.viol("C07", "C07.identity", "a batch item submitted without an ID did not get its own ID from the worker's generator")
+				}
+				continue
+			}
 			if jr.WantID != "" {
 				want := jr.WantID
 				if want == "-" {
@@ -618,9 +633,9 @@ func (h *H) judgeJobs(crashed bool) {
 				ok := id == want || (jr.Batch != nil && id == "g:"+want)
 				if !ok {
 					h.viol("C01", "C01.identity", fmt.Sprintf("worker function saw ID %q for a job submitted as %q", id, want))
+					h.viol("C07", "C07.identity", fmt.Sprintf("worker function saw ID %q for a job submitted as %q", id, want))
 				}
 			}
-			_ = i
 		}
 		// C10.a: Close returned nil with its effect point before the end of the run
 		for _, c := range jr.Closes {
@@ -634,6 +649,9 @@ func (h *H) judgeJobs(crashed bool) {
 				}
 				if c.Err == nil && c.Call < st && c.Ret < en {
 					h.viol("C10", "C10.closed-ran", "Close returned nil before the job started, yet the job was executed")
+				}
+				if c.Err == nil && c.Ret < st {
+					h.viol("C01", "C01.cancelled-ran", "a job whose Close had already returned nil was executed afterwards")
 				}
 				if c.Err == nil && c.Call > st && c.Ret < en {
 					h.viol("C10", "C10.close-processing", "Close returned nil while the job was executing")
@@ -849,10 +867,18 @@ func (h *H) judgeBatches(crashed bool) {
 		seen := map[string]int{}
 		for _, r := range b.Got {
 			seen[r.JobId]++
-			tag := -1
-			id := strings.TrimPrefix(r.JobId, "g:")
-			fmt.Sscanf(id, "id%d", &tag)
-			jr := h.jobByTag[tag]
+			// the tag of a result is the ID the item carried inside the worker function
+			var jr *JobRec
+			for _, t := range b.Tags {
+				if o := h.jobByTag[t]; len(o.SeenID) > 0 && o.SeenID[0] == r.JobId {
+					jr = o
+				}
+			}
+			if jr == nil {
+				tag := -1
+				fmt.Sscanf(strings.TrimPrefix(r.JobId, "g:"), "id%d", &tag)
+				jr = h.jobByTag[tag]
+			}
 			if jr == nil || jr.Batch != b {
 				h.viol("C08", "C08.result-id", fmt.Sprintf("stream delivered a result tagged %q which is not an item of the batch", r.JobId))
 				continue
@@ -871,7 +897,7 @@ func (h *H) judgeBatches(crashed bool) {
 			if b.Results != nil {
 				for _, t := range b.Tags {
 					jr := h.jobByTag[t]
-					if len(jr.Ends) > 0 && seen["g:id"+fmt.Sprint(t)]+seen["id"+fmt.Sprint(t)] == 0 {
+					if len(jr.Ends) > 0 && len(jr.SeenID) > 0 && seen[jr.SeenID[0]] == 0 {
 						h.viol("C08", "C08.result-missing", "an executed item has no result on the stream")
 					}
 				}
@@ -922,7 +948,7 @@ func (h *H) judgeAdapters(crashed bool) {
 	for _, w := range h.Ws {
 		for _, q := range w.Qs {
 			a := q.Ad
-			if a == nil || seen[a] {
+			if a == nil || seen[a] || a.AnyItems {
 				continue
 			}
 			seen[a] = true
